@@ -14,6 +14,14 @@ import (
 const (
 	packetWindowMicroseconds  = 500_000
 	maxMissingSequenceNumbers = 0x7FFE
+
+	// maxFeedbackSize is the largest feedback packet in bytes: pion/rtcp computes the
+	// marshaled size of a TransportLayerCC in 16 bits.
+	maxFeedbackSize = math.MaxUint16
+	// feedbackSizeMargin is room kept for what adding one received packet can still
+	// append: run length chunks for up to 65535 missing packets, the pending chunk,
+	// the status and the delta of the packet itself, and padding.
+	feedbackSizeMargin = 32
 )
 
 // Recorder records incoming RTP packets and their delays and creates
@@ -248,6 +256,10 @@ func (f *feedback) addReceived(sequenceNumber uint16, timestampUS int64) bool {
 	}
 	// delta doesn't fit into 16 bit, need to create new packet
 	if delta250US < math.MinInt16 || delta250US > math.MaxInt16 {
+		return false
+	}
+	// packet would grow beyond what can be marshaled, need to create new packet
+	if 20+2*len(f.chunks)+f.len+feedbackSizeMargin > maxFeedbackSize {
 		return false
 	}
 	deltaUSRounded := delta250US * rtcp.TypeTCCDeltaScaleFactor
